@@ -127,70 +127,142 @@ def inline_json(prog, f, helpers, memo, stack=()):
         nt = {"k": "goto", "t": boff, "inl": g}
         nt.update(src)
         blk["t"] = nt
-        _thread_const_returns(j, loff, range(boff, len(j["blocks"])))
+        _thread_const_returns(prog, j, loff, range(boff, len(j["blocks"])))
         inl.append(g)
         inl.extend(sub)
     memo[f.name] = (j, inl)
     return memo[f.name]
 
 
-def _thread_const_returns(j, ret_local, callee_blocks):
+def _thread_const_returns(prog, j, ret_local, callee_blocks):
     """`if helper() { A } else { B }` with `fn helper() -> bool { x && y }`: the helper's `return false` reaches the caller's
     test through a join (`_ret = false; dest = _ret; switch dest`), where the un-extracted code jumped straight to B. A
-    path-insensitive rule sees a path `x is false -> A` that does not exist. The join is undone by tail duplication: a
-    callee block that ends by storing a *constant* into the return local gets its own copy of the straight-line
-    statements up to the caller's switch on that value, and continues at the switch target the constant selects."""
+    path-insensitive rule sees a path `x is false -> A` that does not exist. The join is undone by tail duplication with
+    constant propagation: a callee block that ends by storing a *constant* (a bool, or `Ok(c)` / `Some(c)` / `Err(..)` /
+    `None`) into the return local gets its own copy of the caller's continuation for as long as the switches there are
+    decided by that constant (through moves, `Try::branch`, discriminant reads and payload reads)."""
     blocks = j["blocks"]
+
+    def discr_of(adt, variant):
+        a = prog.adts.get(adt) or prog.ext_adts.get(adt)
+        if a:
+            for v in a["variants"]:
+                if v["name"] == variant:
+                    return v["discr"]
+        return {"Ok": 0, "Err": 1, "None": 0, "Some": 1, "Continue": 0, "Break": 1}.get(variant)
+
+    def const_of(o, env):
+        if isinstance(o, dict) and "c" in o and isinstance(o["c"].get("v"), int) and o["c"].get("ty") == "bool":
+            return ("bool", o["c"]["v"])
+        if isinstance(o, dict) and "l" in o and not o.get("pr") and o["l"] in env:
+            return env[o["l"]]
+        return None
+
     for bi in list(callee_blocks):
         b = blocks[bi]
-        if b["t"]["k"] != "goto" or not b["s"]:
+        if b["t"]["k"] not in ("goto", "drop") or not b["s"]:
             continue
-        # the last whole assignment to the return local in this block is a constant
-        cval = None
-        for st in reversed(b["s"]):
-            if st["k"] == "assign" and st["p"].get("l") == ret_local and not st["p"].get("pr"):
-                a = st["rv"].get("a") if st["rv"]["k"] == "use" else None
-                if isinstance(a, dict) and "c" in a and isinstance(a["c"].get("v"), int) and a["c"].get("ty") == "bool":
-                    cval = a["c"]["v"]
-                break
-        if cval is None:
+        env = {}
+        for st in b["s"]:           # values known at the end of the returning block
+            if st["k"] != "assign" or st["p"].get("pr"):
+                continue
+            rv, l = st["rv"], st["p"]["l"]
+            env.pop(l, None)
+            if rv["k"] == "use":
+                v = const_of(rv["a"], env)
+                if v is not None:
+                    env[l] = v
+            elif rv["k"] == "agg" and rv.get("adt") in ("core::result::Result", "core::option::Option"):
+                pay = const_of(rv["ops"][0], env) if rv["ops"] else None
+                env[l] = ("enum", rv["adt"], rv["v"], pay)
+        if ret_local not in env:
             continue
-        alias = {ret_local}
-        copied = []
+        env = {ret_local: env[ret_local]}
+        first_new = None
+        prev = None          # (block json, key) whose jump is to be pointed at the next copy
         cur = b["t"]["t"]
-        target = None
-        for _ in range(6):
+        resolved = 0
+        made = []
+        final_target = None
+        for _ in range(24):
             nb = blocks[cur]
+            cp = {"s": [], "t": None}
+            if nb.get("c"):
+                cp["c"] = True
             okb = True
             for st in nb["s"]:
+                cp["s"].append(copy.deepcopy(st))
                 if st["k"] != "assign":
-                    okb = False
-                    break
+                    continue
+                pl = st["p"]
                 rv = st["rv"]
-                src = rv.get("a") if rv["k"] == "use" else None
-                if isinstance(src, dict) and src.get("l") in alias and not src.get("pr") and not st["p"].get("pr"):
-                    alias.add(st["p"]["l"])
-                elif st["p"].get("l") in alias:
-                    okb = False
-                    break
-                copied.append(st)
+                if pl.get("pr"):
+                    if pl["l"] in env:
+                        env.pop(pl["l"])
+                    continue
+                l = pl["l"]
+                env.pop(l, None)
+                if rv["k"] == "use":
+                    a = rv["a"]
+                    v = const_of(a, env)
+                    if v is None and isinstance(a, dict) and a.get("l") in env and env[a["l"]][0] == "enum":
+                        # payload read: ((x as Variant).0)
+                        pr = a.get("pr") or []
+                        e = env[a["l"]]
+                        if len(pr) == 2 and isinstance(pr[0], dict) and pr[0].get("dc") == e[2] and isinstance(pr[1], dict) and pr[1].get("i") == 0:
+                            v = e[3]
+                    if v is not None:
+                        env[l] = v
+                elif rv["k"] == "discr" and isinstance(rv["p"], dict) and not rv["p"].get("pr") and rv["p"]["l"] in env and env[rv["p"]["l"]][0] == "enum":
+                    e = env[rv["p"]["l"]]
+                    d = discr_of(e[1], e[2])
+                    if d is not None:
+                        env[l] = ("int", d)
+            t = nb["t"]
+            nxt = None
+            if t["k"] == "goto" or (t["k"] == "drop" and not (isinstance(t.get("p"), dict) and t["p"].get("l") in env)):
+                cp["t"] = copy.deepcopy(t)
+                nxt = t["t"]
+            elif t["k"] == "call" and t.get("t") is not None and (t.get("f") or "").endswith("Try::branch") and len(t["args"]) == 1 \
+                    and isinstance(t["args"][0], dict) and t["args"][0].get("l") in env and not t["args"][0].get("pr") \
+                    and env[t["args"][0]["l"]][0] == "enum" and not t["dest"].get("pr"):
+                e = env[t["args"][0]["l"]]
+                cp["t"] = copy.deepcopy(t)
+                nxt = t["t"]
+                if e[2] in ("Ok", "Some"):
+                    env[t["dest"]["l"]] = ("enum", "core::ops::control_flow::ControlFlow", "Continue", e[3])
+                else:
+                    env[t["dest"]["l"]] = ("enum", "core::ops::control_flow::ControlFlow", "Break", None)
+            elif t["k"] == "switch" and isinstance(t["d"], dict) and not t["d"].get("pr") and t["d"].get("l") in env \
+                    and env[t["d"]["l"]][0] in ("bool", "int"):
+                val = env[t["d"]["l"]][1]
+                hit = [tb for v, tb in t["ts"] if v == val]
+                tgt = hit[0] if hit else t["o"]
+                cp["t"] = dict({kk: t[kk] for kk in ("ln", "mac", "file") if kk in t}, k="goto", t=tgt)
+                nxt = tgt
+                resolved += 1
+                final_target = tgt
+            else:
+                okb = False
             if not okb:
                 break
-            t = nb["t"]
-            if t["k"] == "goto":
-                cur = t["t"]
-                continue
-            if t["k"] == "switch" and isinstance(t["d"], dict) and t["d"].get("l") in alias and not t["d"].get("pr") and t.get("dty") == "bool":
-                hit = [tb for v, tb in t["ts"] if v == cval]
-                target = hit[0] if hit else t["o"]
-            break
-        if target is None:
+            made.append((cp, cur))
+            cur = nxt
+            if not any(v for v in env.values()):
+                break
+        # keep the copies up to and including the last resolved switch
+        while made and not (made[-1][0]["t"]["k"] == "goto" and blocks[made[-1][1]]["t"]["k"] == "switch"):
+            made.pop()
+        if not made or not resolved:
             continue
-        nbk = {"s": copy.deepcopy(copied), "t": dict({kk: b["t"][kk] for kk in ("ln", "mac", "file") if kk in b["t"]}, k="goto", t=target)}
-        if b.get("c"):
-            nbk["c"] = True
-        blocks.append(nbk)
-        b["t"] = dict(b["t"], t=len(blocks) - 1)
+        base = len(blocks)
+        for i, (cp, orig) in enumerate(made):
+            if i + 1 < len(made):
+                # point this copy at the next copy instead of the original successor
+                tt = cp["t"]
+                tt["t"] = base + i + 1
+            blocks.append(cp)
+        b["t"] = dict(b["t"], t=base)
 
 
 def normalise(prog):
